@@ -94,7 +94,7 @@ def dispatch (op : String) (args obs : List String) : Outcome :=
     (match args, obs with
      | scen :: _, b :: rest =>
        let all := " ".intercalate (b :: rest)
-       let tags := if scen == "lifecycle" || scen == "hsrace" then ["C14"] else if scen == "hsmix" then ["C08", "C14", "C04"] else ["C08"]
+       let tags := if scen == "hsrec" then ["C06", "C05", "C14"] else if scen == "lifecycle" || scen == "hsrace" then ["C14"] else if scen == "hsmix" then ["C08", "C14", "C04"] else ["C08"]
        let tags := if (all.splitOn "writes-after-close").length > 1 then tags ++ ["C06"] else tags
        { corr := .ok,
          prop := if b == "bad=0" then .ok else .bad (" ; ".intercalate (tags.map fun t => s!"{t} concurrent scenario {scen}: {" ".intercalate (b :: rest)}")),
